@@ -22,6 +22,8 @@ import (
 var prop = flag.String("prop", "C01", "C01..C06")
 var profile = flag.String("profile", "mock", "mock = mocktikv's MVCC store | full = the Lean store (cgv-full) with async commit / 1PC / CheckSecondaryLocks")
 var scale = flag.Int("scale", 100, "percent of the tier's scenario count (the checks run both profiles at 60%)")
+var exhaustive = flag.String("exhaustive", "on", "C01: on = sampled scenarios + exhaustive enumeration | off | only")
+var exhLimit = flag.Int("exhlimit", 20000, "exhaustive enumeration: schedule limit of one program combination (beyond it the combination is reported incomplete)")
 var fullExe = flag.String("full", "", "path of the cgv-full executable (profile full)")
 
 // lean is the Lean store server of profile full (nil in profile mock)
@@ -69,7 +71,16 @@ func main() {
 	case "smoke":
 		smoke()
 	case "C01":
-		runC01()
+		if *exhaustive != "only" {
+			runC01()
+		}
+		if *exhaustive != "off" {
+			runExhaustive(run.Thorough())
+		}
+	case "X02":
+		runExhaustiveOne()
+	case "X01":
+		runExhaustive(run.Thorough())
 	case "C02":
 		runC02()
 	case "C03":
